@@ -431,7 +431,7 @@ func freshSlice(v ssa.Value, d int) bool {
 
 var rFormatArg = &Rule{
 	Name: "R-FORMAT-ARG",
-	Doc:  "only format strings are used as format strings: the format argument of every redact.Sprintf / HelperForErrorf / fmt.Sprintf / fmt.Errorf / Printer.Printf call in module code originates (E-ORIGIN) from constants or from API parameters that are themselves named format - a plain message parameter forwarded into a format position is mangled when it contains % (and is declared safe)",
+	Doc:  "only format strings are used as format strings: the format argument of every printf-like call in module code (redact.Sprintf / HelperForErrorf / fmt.* / Printer.Printf and any function, in any package, with a (format string, args ...interface{}) tail) originates (E-ORIGIN) from constants or from API parameters that are themselves named format - a plain message parameter, a string received from the wire, an error text or a foreign field forwarded into a format position is mangled when it contains % (and is declared safe)",
 	Run: func(c *core.Ctx) {
 		e := originEngine(c)
 		n := 0
@@ -461,6 +461,12 @@ var rFormatArg = &Rule{
 						format, what = call.Call.Args[0], "fmt."+f.Name()
 					case pk == "fmt" && f.Name() == "Fprintf":
 						format, what = call.Call.Args[1], "fmt.Fprintf"
+					default:
+						// any other printf-like function, in or outside the module: variadic ...interface{} preceded by a
+						// string parameter named format
+						if i := formatParamIndex(f); i >= 0 && i < len(call.Call.Args) {
+							format, what = call.Call.Args[i], load.FnName(f)
+						}
 					}
 				}
 				if format == nil {
@@ -475,12 +481,44 @@ var rFormatArg = &Rule{
 					if o.Kind == origin.APIParam && o.Fn != nil && o.Param < len(o.Fn.Params) && o.Fn.Params[o.Param].Name() != "format" {
 						bad = append(bad, o.Desc)
 					}
+					if o.Kind == origin.Wire || o.Kind == origin.ErrText || o.Kind == origin.ForeignField {
+						bad = append(bad, o.Key())
+					}
 				}
-				c.Check(len(bad) == 0, load.FnName(fn)+": format of "+what, call.Pos(), "constant or a parameter named format", "a non-format parameter ("+strings.Join(dedupStr(bad), ", ")+") is used as a format string: a % in the message is interpreted, the text is mangled")
+				c.Check(len(bad) == 0, load.FnName(fn)+": format of "+what, call.Pos(), "constant or a parameter named format", "a string that is not a format ("+strings.Join(dedupStr(bad), ", ")+") is used as a format string: a % in the message is interpreted, the text is mangled")
 			})
 		}
 		c.Min("non-constant format arguments", n, 8)
 	},
+}
+
+// formatParamIndex: index (in the SSA argument list, i.e. counting the receiver) of the format parameter of a
+// printf-like function, or -1.
+func formatParamIndex(f *ssa.Function) int {
+	sig := f.Signature
+	if sig == nil || !sig.Variadic() || sig.Params().Len() < 2 {
+		return -1
+	}
+	n := sig.Params().Len()
+	last, ok := sig.Params().At(n - 1).Type().(*types.Slice)
+	if !ok {
+		return -1
+	}
+	if it, ok := types.Unalias(last.Elem()).Underlying().(*types.Interface); !ok || it.NumMethods() != 0 {
+		return -1
+	}
+	fp := sig.Params().At(n - 2)
+	if fp.Name() != "format" {
+		return -1
+	}
+	if b, ok := types.Unalias(fp.Type()).Underlying().(*types.Basic); !ok || b.Kind() != types.String {
+		return -1
+	}
+	idx := n - 2
+	if sig.Recv() != nil {
+		idx++
+	}
+	return idx
 }
 
 // ---------------------------------------------------------------------------
